@@ -56,6 +56,8 @@ def run_harness(c, exe_go, tier, replay):
         stats.append("replay of scenarios %s" % firsts[:40])
     else:
         n = 360 if tier == "quick" else 3500
+        if c.escalated:   # a modelled Go function changed since the pin (c.drift): look harder
+            n *= 3
         rc, o, e = V.sh([exe_go, "-n", str(n), "-out", scen, "-j", str(V.NCPU)], timeout=3000)
         if rc != 0:
             raise RuntimeError("harness cmd/c02 failed: " + (o + e)[-1500:])
